@@ -32,6 +32,10 @@ def gen(rng, tier):
         cases.append(Case("cli.new_vanity %s %s - default %s" % (hx(str(L)), hx("0x" + rng.choice("0123456789abcdef")), stream(rng, 250, nb)), tags=("model", "length:%d" % L), runner="cli", meta={"threads": 0}))
     for sel, pw in [("idx:" + hx("3"), "-"), ("path:" + hx("m/44'/60'/0'/0/7"), "-"), ("default", hx("vänity pass")), ("idx:" + hx("2147483647"), hx("x")), ("path:" + hx("m/0"), hx("p"))]:
         cases.append(Case("cli.new_vanity %s %s %s %s %s" % (hx("12"), hx("0x" + rng.choice("0123456789abcdefABCDEF")), pw, sel, stream(rng, 250, 16)), tags=("model", "selector"), runner="cli", meta={"threads": 0}))
+    # vanity passphrases with blanks at the ends, invisible blanks, characters a layer might rewrite: the search must use
+    # exactly the passphrase `address --password` will be given (the model derives with the passphrase verbatim)
+    for pw in [" pw", "pw ", "p w\t", " ", "\u00a0x\u00a0", "  both  ", "\u3000", "nl\n", "under_score", "-dash", "=eq", "é", "e\u0301", "ｐ"]:
+        cases.append(Case("cli.new_vanity %s %s %s default %s" % (hx("12"), hx("0x" + rng.choice("0123456789abcdefABCDEF")), hx(pw), stream(rng, 250, 16)), tags=("model", "passphrase-verbatim"), runner="cli", meta={"threads": 0}))
     # longer prefixes over short streams.  (a) a random prefix of 3..7, 39, 40, 41 digits: the address of no entry starts
     # with it (with overwhelming probability), so the source runs dry and the command fails — a matcher that looks at only
     # part of the prefix finds a "match" among 60 entries instead.  (b) the prefix is cut from the address of entry k (computed
